@@ -867,7 +867,8 @@ func (s *sim) start(method string, key string, p *simPub, withGcp bool, hasDl bo
 	h, st := s.exec(func() { pr, err = p.picker.Pick(balancer.PickInfo{FullMethodName: method, Ctx: ctx}) })
 	if st == vParked {
 		// only a round-robin BIND may wait, and only for its channel
-		if !rrBind || p.state == connectivity.TransientFailure || len(p.snap) == 0 {
+		// (in hostile mode the shadow's snapshot of the picker is not reliable)
+		if !rrBind || (!s.hostile && (p.state == connectivity.TransientFailure || len(p.snap) == 0)) {
 			s.fail("C06.blocked", "pick", "pick %s parked (state %q) %s", method, h.state, vRepoChain(h.frames, simPkg))
 			s.dead = true
 			return
